@@ -260,6 +260,30 @@ def search(spec):
             if hit:
                 return hit, n
         return None, n
+    if oracle == "C16":
+        for inner in ["schema.int", "schema.str.len(1, 3)", "schema.dict({'x': schema.int})", "schema.list(schema.int)", "schema.none"]:
+            hit = run({"schema": {"k": "custom", "inner": {"k": "expr", "src": inner}}}, {})
+            if hit:
+                return hit, n
+        return None, n
+    if oracle == "C14":
+        vals = ["date(2024, 2, 29)", "datetime(2024, 2, 29, 13, 37)", "{'d': date(2024, 2, 29)}", "[date(2024, 2, 29), 1]", "1", "True", "1.5",
+                "'a'", "None", "b'x'", "[1, 'a', None]", "{'a': [1, {'b': None}]}", "UUID('12345678-1234-4234-8234-123456789abc')",
+                "UUID('12345678-1234-1234-8234-123456789abc')", "UUID(int=0)", "[UUID(int=0)]", "{'u': UUID('12345678-1234-1234-8234-123456789abc')}",
+                "(1,)", "{1}", "object()", "[object()]", "{'k': (1,)}", "1e308", "float('inf')"]
+        ws = {"date(2024, 2, 29)": ["datetime(2024, 2, 29, 13, 37)", "datetime(2024, 2, 29, 0, 0)", "date(2024, 3, 1)"],
+              "datetime(2024, 2, 29, 13, 37)": ["date(2024, 2, 29)"], "{'d': date(2024, 2, 29)}": ["{'d': datetime(2024, 2, 29, 1, 1)}"],
+              "[date(2024, 2, 29), 1]": ["[datetime(2024, 2, 29, 0, 0), 1]"], "1": ["True", "1.0", "2"], "True": ["1"], "1.5": ["1.5000000001", "2"],
+              "[1, 'a', None]": ["[1, 'a']", "[1, 'a', None, None]", "[True, 'a', None]"], "{'a': [1, {'b': None}]}": ["{'a': [1, {'b': None, 'c': 1}]}", "{'a': [1, {}]}"]}
+        for v in vals:
+            for w in [None] + ws.get(v, []):
+                inputs = {"value": {"k": "expr", "src": v}}
+                if w is not None:
+                    inputs["w"] = {"k": "expr", "src": w}
+                hit = run(inputs, {})
+                if hit:
+                    return hit, n
+        return None, n
     if oracle == "C13":
         dicts = ["schema.dict", "schema.dict({})", "schema.dict({'a': schema.int})", "schema.dict({'a': schema.int, 'b': schema.str})",
                  "schema.dict({optional('a'): schema.int, 'c': schema.none})", "schema.dict({'a': schema.str, ...: ...})",
